@@ -64,6 +64,30 @@ def tokenizer_map(crate):
             for sp in subs:
                 if sp.get("k") == "Lit" and sp["lit"].get("lk") == "char":
                     chars.append(sp["lit"]["v"])
+            if not chars and p.get("k") == "Binding" and "guard" in a:
+                # `c if predicate(c) => Kind`: the characters the (crate-local) predicate accepts, evaluated over the
+                # character literals its own body mentions
+                g = peel(a["guard"])
+                body_ = peel(a["body"])
+                while body_.get("k") == "Block" and body_.get("tail") is not None and not body_.get("stmts"):
+                    body_ = peel(body_["tail"])
+                v_ = ctor_variant(body_)
+                if g.get("k") == "Call" and len(g.get("args", [])) == 1 and v_ and v_[0] == TK:
+                    pth = (callee(g) or "").split("::<")[0]
+                    pf = crate.hir.get(pth)
+                    arg = peel_refs(g["args"][0])
+                    if pf is not None and arg.get("k") == "Path" and arg.get("res", {}).get("id") == p.get("id"):
+                        from idchars import CharEval
+
+                        ce = CharEval(crate)
+                        cands = sorted({y["lit"]["v"] for y in walk(pf["body"]) if y.get("k") == "Lit" and isinstance(y.get("lit"), dict) and y["lit"].get("lk") == "char"})
+                        for ch in cands:
+                            try:
+                                if ce.call(pth, ch) is True:
+                                    out.setdefault(ch, v_[1])
+                            except Exception:
+                                pass
+                continue
             if not chars:
                 continue
             second = None
